@@ -5,6 +5,7 @@
 //
 // Sub-checks
 //   static.curve   attack = release = 0: out level vs documented law (1e-6 dB), monotone + continuous on the grid
+//   static.exact   samples whose computed level equals T, T-W/2 or T+W/2 bit-exactly (searched among 200 neighbouring doubles)
 //   gain.range     all attack/release combinations on signal letters: gain in [0,1], out = x*gain, limiter ceiling
 //   smooth.step    level steps up/down: dB gain moves monotonically toward the static target, 10%->90% in fs*t
 //   smooth.silence burst | exact zeros for k release times | quiet tone (1 call / 3 calls): first-order release through the silence
@@ -229,6 +230,61 @@ static void static_curve(Ctx& ctx, const char* site, Proc& proc, bool limiter, d
     if (attenuated) ctx.nontrivial();
 }
 
+// ---------------------------------------------------------------------------------------------- static.exact
+// amplitudes a among the 200 doubles around db2mag(E) whose level, as the library computes it (mag2db(a + eps())), equals
+// E bit-exactly: the branch conditions of the gain computers are evaluated exactly at their boundary
+static std::vector<double> exact_hits(double E) {
+    std::vector<double> h;
+    const double c = dsplib::db2mag(E);
+    double a = c;
+    for (int i = 0; i <= 100; ++i) {
+        if (dsplib::mag2db(a + dsplib::eps()) == E) h.push_back(a);
+        a = std::nextafter(a, INFINITY);
+    }
+    a = std::nextafter(c, 0.0);
+    for (int i = 0; i < 100; ++i) {
+        if (dsplib::mag2db(a + dsplib::eps()) == E) h.push_back(a);
+        a = std::nextafter(a, 0.0);
+    }
+    return h;
+}
+
+template<class Proc>
+static void static_exact(Ctx& ctx, const char* site, Proc& proc, bool limiter, double T, int R, double W, double tr, bool count) {
+    std::vector<double> edges = {T};
+    if (W > 0) edges.push_back(T - W / 2), edges.push_back(T + W / 2);
+    std::vector<double> x, out, gain;
+    for (double E : edges) {
+        const std::vector<double> h = exact_hits(E);
+        if (count) ctx.note(fmt("static.exact: amplitudes with mag2db(a+eps) == %g dB exactly (T=%g W=%g)", E, T, W), (long long)h.size());
+        for (double a : h)
+            for (double v : {a, -a, a, 0.5 * a, a}) x.push_back(v);
+    }
+    if (x.empty()) {
+        ctx.note("static.exact cases without an exact hit");
+        return;
+    }
+    if (!run_framed(ctx, site, proc, x, out, gain, false)) return;
+    if (!check_range(ctx, site, x, out, gain)) return;
+    const double ceil_ = std::pow(10.0, T / 20.0);
+    for (size_t i = 0; i < x.size(); ++i) {
+        if (limiter && !(std::fabs(out[i]) <= ceil_ * (1 + 1e-9))) {
+            ctx.fail(site, fmt("|out[%zu]| = %.17g for x = %.17g", i, std::fabs(out[i]), x[i]), fmt("<= 10^(T/20) = %.17g", ceil_), P().kv("sub", "ceiling").kv("i", (long long)i));
+            return;
+        }
+        if (tr == 0) {
+            const ld Lin = level_db(x[i]), ref = static_out(limiter, T, R, W, Lin);
+            const ld d = out[i] != 0 ? fabsl(level_db(out[i]) - ref) : 1e30L;
+            ctx.worst("static.exact |dB err| at exact breakpoints", (double)d);
+            if (!(d <= 1e-6L)) {
+                ctx.fail(site, fmt("out = %.17g for x = %.17g (level exactly at a breakpoint)", out[i], x[i]), fmt("%.6Lf dB (documented law)", ref), P().kv("sub", "curve").kv("i", (long long)i));
+                return;
+            }
+        }
+    }
+    ctx.nontrivial();
+}
+
 // ---------------------------------------------------------------------------------------------- smooth.step
 // one phase of a step history: gdb[first..last) after the level changed; g0 = dB gain before the phase
 struct Phase {
@@ -237,11 +293,62 @@ struct Phase {
     double t;    // configured time for this direction
 };
 
+// One-pole law toward a constant target G: (v[k+1] - G) / (v[k] - G) = w for every k.  The ratio is estimated as the median
+// of the per-sample ratios over the samples whose distance to G is above 1e-6 of the step (v0 = value before the phase);
+// the implied 10->90 % time is -ln 9 / (fs ln w).  spread = max |ratio - median| (recorded, not judged).
+struct PoleEst {
+    int n = 0;
+    ld w = 0, spread = 0;
+};
+template<class V>
+static PoleEst pole_est(const V* v, int n, ld v0, ld G) {
+    PoleEst pe;
+    const ld thr = 1e-6L * fabsl(v0 - G);
+    std::vector<ld> r;
+    ld prev = v0;
+    for (int k = 0; k < n; ++k) {
+        if (!(fabsl(prev - G) > thr)) break;
+        r.push_back(((ld)v[k] - G) / (prev - G));
+        prev = (ld)v[k];
+    }
+    pe.n = (int)r.size();
+    if (r.empty()) return pe;
+    std::vector<ld> q = r;
+    std::nth_element(q.begin(), q.begin() + q.size() / 2, q.end());
+    pe.w = q[q.size() / 2];
+    for (ld x : r) pe.spread = std::max(pe.spread, fabsl(x - pe.w));
+    return pe;
+}
+// judge the estimated time constant: within 2 % of the configured time (t = 0: the target is reached at once)
+static bool check_pole(Ctx& ctx, const char* site, const PoleEst& pe, int fs, double t, const std::string& what, const P& detail) {
+    if (pe.n == 0) return true;
+    ctx.worst("one-pole ratio spread max|r_k - median|", (double)pe.spread);
+    if (t == 0) {
+        if (!(fabsl(pe.w) <= 1e-9L)) {
+            ctx.fail(site, fmt("%s: per-sample ratio %.6Lg with a configured time of 0", what.c_str(), pe.w), "target reached on the first sample", detail);
+            return false;
+        }
+        return true;
+    }
+    const ld test = (pe.w > 0 && pe.w < 1) ? -logl(9.0L) / ((ld)fs * logl(pe.w)) : (pe.w <= 0 ? 0.0L : 1e30L);
+    const ld dev = fabsl(test / (ld)t - 1);
+    ctx.worst("one-pole |t_est/t - 1| (allowed 0.02)", (double)dev);
+    if (!(dev <= 0.02L)) {
+        ctx.fail(site, fmt("%s: per-sample decay ratio %.9Lf over %d samples implies a 10%%->90%% time of %.6Lg s = %.4Lf samples", what.c_str(), pe.w, pe.n, test, test * fs),
+                 fmt("configured %.6g s = fs*t = %.4f samples, within 2 %%", t, fs * t), detail);
+        return false;
+    }
+    return true;
+}
+
 static void check_phase(Ctx& ctx, const char* site, const std::vector<ld>& g, ld g0, const Phase& ph, int fs, const char* name, int pidx) {
     const ld TOL = 1e-9L;
     const ld delta = ph.target - g0;
     if (fabsl(delta) < 1e-3L) return;   // no step
     const bool down = delta < 0;
+    if (!check_pole(ctx, site, pole_est(g.data() + ph.first, ph.last - ph.first, g0, ph.target), fs, ph.t, fmt("%s phase %d", name, pidx),
+                    P().kv("sub", "time_constant").kv("phase", pidx)))
+        return;
     long long n10 = -1, n90 = -1;
     ld prev = g0;
     for (int k = ph.first; k < ph.last; ++k) {
@@ -456,6 +563,9 @@ static void gate_step(Ctx& ctx, int fs, double thr, double ta, double tr, double
         const double target = opening ? 1.0 : 0.0, t = opening ? tr : ta;
         const double delta = target - g0;
         if (std::fabs(delta) < 1e-6) continue;
+        if (!check_pole(ctx, site, pole_est(gain.data() + first, start[s + 1] - first, g0, target), fs, t, opening ? "gate opening" : "gate closing",
+                        P().kv("sub", "time_constant").kv("phase", s)))
+            return;
         long long n10 = -1, n90 = -1;
         double prev = g0;
         bool bad = false;
@@ -521,6 +631,7 @@ static void gate_silence(Ctx& ctx, int fs, double thr, double ta, double tr, dou
         return;
     }
     const int first = NO + (int)held;
+    if (!check_pole(ctx, site, pole_est(gain.data() + first, (int)x.size() - first, g0, 0.0L), fs, ta, "gate closing through zeros", P().kv("sub", "time_constant"))) return;
     long long n10 = -1, n90 = -1;
     double prev = g0;
     for (int i = first; i < (int)x.size(); ++i) {
@@ -724,6 +835,25 @@ int main(int argc, char** argv) {
                         }
             }
 
+    // ---- exact breakpoints: samples whose computed level equals T, T-W/2, T+W/2 bit-exactly (zero attack; release 0 and 0.2 s)
+    for (int kind = 0; kind < 3; ++kind)   // 0 compressor R=1, 1 compressor R=5, 2 limiter
+        for (double T : Ts)
+            for (double W : Ws)
+                for (double tr : {0.0, 0.2}) {
+                    P p;
+                    p.kv("kind", kind == 2 ? "limiter" : "compressor").kv("T", T);
+                    if (kind < 2) p.kv("R", kind ? 5 : 1);
+                    p.kv("W", W).kv("rel", tr);
+                    if (!ctx.take("static.exact", p)) continue;
+                    if (kind < 2) {
+                        Compressor c(8000, T, kind ? 5 : 1, W, 0, tr);
+                        static_exact(ctx, "Compressor.process", c, false, T, kind ? 5 : 1, W, tr, false);
+                    } else {
+                        Limiter l(8000, T, W, 0, tr);
+                        static_exact(ctx, "Limiter.process", l, true, T, 1, W, tr, tr == 0);
+                    }
+                }
+
     // ---- gain range / ceiling on signal letters, all attack x release combinations
     const double TAR[] = {0, 1e-3, 0.2, 4};
     const int NS = TH ? 100000 : 10000;
@@ -783,6 +913,25 @@ int main(int argc, char** argv) {
                     if (kind == 1 && R != 2) continue;
                     for (double W : {0.0, 10.0})
                         for (int fs : FSs)
+                            for (int frac = 0; frac < 6; ++frac) {
+                                // small fractional fs*t (attack = release): a time rounded to whole samples is visible in the decay ratio
+                                static const double FR[] = {1.5, 1.92, 2.5, 3.3, 7.7, 10.5};
+                                const double t = FR[frac] / fs;
+                                P p;
+                                p.kv("kind", kind ? "limiter" : "compressor").kv("T", T);
+                                if (!kind) p.kv("R", R);
+                                p.kv("W", W).kv("fs", fs).kv("fs_t", FR[frac]);
+                                if (!ctx.take("smooth.step", p)) continue;
+                                if (kind == 0) {
+                                    Compressor c(fs, T, R, W, t, t);
+                                    smooth_step(ctx, "Compressor.process", c, false, T, R, W, fs, t, t);
+                                } else {
+                                    Limiter l(fs, T, W, t, t);
+                                    smooth_step(ctx, "Limiter.process", l, true, T, 1, W, fs, t, t);
+                                }
+                            }
+                    for (double W : {0.0, 10.0})
+                        for (int fs : FSs)
                             for (double ta : TT)
                                 for (double tr : TT) {
                                     if (!TH && fs == 192000 && (ta > 0.2 || tr > 0.2)) continue;   // quick: no 4 s at 192 kHz
@@ -837,6 +986,15 @@ int main(int argc, char** argv) {
                                 if (!ctx.take("gate.silence", P().kv("thr", thr).kv("fs", fs).kv("att", ta).kv("rel", tr).kv("hold", th).kv("k", k).kv("calls", calls))) continue;
                                 gate_silence(ctx, fs, thr, ta, tr, th, k, calls);
                             }
+
+    // ---- NoiseGate, small fractional fs*t
+    for (double thr : {-140.0, -40.0, 0.0})
+        for (int fs : FSs)
+            for (double fr : {1.5, 1.92, 2.5, 3.3, 7.7, 10.5})
+                for (double th : {0.0, 1e-3}) {
+                    if (!ctx.take("gate.step", P().kv("thr", thr).kv("fs", fs).kv("fs_t", fr).kv("hold", th))) continue;
+                    gate_step(ctx, fs, thr, fr / fs, fr / fs, th);
+                }
 
     // ---- NoiseGate
     {
